@@ -408,6 +408,11 @@ func checkLEBWriter(c *Ctx, f *ssa.Function, V *ssa.Phi) {
 		pos    string
 	}
 	var apps []app
+	type appBlk struct {
+		blk  *ssa.BasicBlock
+		cont bool
+	}
+	var appBlocks []appBlk
 	for _, b := range f.Blocks {
 		for _, ins := range b.Instrs {
 			st, ok := ins.(*ssa.Store)
@@ -431,6 +436,9 @@ func checkLEBWriter(c *Ctx, f *ssa.Function, V *ssa.Phi) {
 				}
 			}
 			apps = append(apps, app{env.bits(st.Val, 0), inLoop, u.Pos(st.Pos())})
+			if bv := env.bits(st.Val, 0); bv != nil {
+				appBlocks = append(appBlocks, appBlk{b, bv[7] == (bit{k: 1})})
+			}
 		}
 	}
 	var bad []string
@@ -478,14 +486,29 @@ func checkLEBWriter(c *Ctx, f *ssa.Function, V *ssa.Phi) {
 			continue
 		}
 		bo, ok := iff.Cond.(*ssa.BinOp)
-		if !ok || bo.Op != token.NEQ || !constIs(bo.Y, 0) {
+		if !ok || (bo.Op != token.NEQ && bo.Op != token.EQL) || !constIs(bo.Y, 0) {
 			continue
 		}
 		bv := env.bits(bo.X, 0)
 		if bv == nil {
 			continue
 		}
+		// the edge taken while high bits remain leads to the continuation byte, the other one to the final byte
+		more, done := b.Succs[0], b.Succs[1]
+		if bo.Op == token.EQL {
+			more, done = done, more
+		}
 		good := true
+		for _, a := range appBlocks {
+			inMore := a.blk == more || more.Dominates(a.blk)
+			inDone := a.blk == done || done.Dominates(a.blk)
+			if a.cont && (!inMore || inDone && !inMore) {
+				good = false
+			}
+			if !a.cont && inMore && !inDone && len(more.Preds) == 1 {
+				good = false
+			}
+		}
 		for i := 0; i < len(bv); i++ {
 			switch {
 			case i < 7 && bv[i] != (bit{}):
